@@ -8,6 +8,7 @@
 //! Monitor (2), `py/cram_walk.py` run by the driver's `post` hook: every written file is dumped with
 //! a sidecar of expected totals and walked by an independent container walker.
 
+mod bnd;
 mod emap;
 
 use std::collections::{BTreeMap, BTreeSet};
@@ -239,7 +240,7 @@ fn det_stream(name: &str) -> (Stream, Option<(usize, usize)>) {
         r.mate_pos = last.pos;
         r.flags |= gencram::F_MATE_REVERSE;
     }
-    (Stream { refs, read_groups: vec!["rg0".into()], reads }, layout)
+    (Stream { refs, read_groups: vec!["rg0".into()], reads, declared_lengths: None }, layout)
 }
 
 // ---------------------------------------------------------------------------------------------
@@ -273,6 +274,10 @@ fn gen_cases(ctx: &Ctx) -> Vec<Case> {
             emap: "default".into(),
             layout,
         });
+    }
+    // width-boundary files (deterministic, independent of the seed)
+    for (k, (class, emap)) in bnd::cases(ctx.quick()).into_iter().enumerate() {
+        cases.push(Case { class, gseed: 0, opts: GenOpts::default(), preserve_names: true, deltas: k % 2 == 0, emap: emap.into(), layout: None });
     }
     let emaps = emap::names();
     // every encoder map once on a fixed, feature-rich stream shape (deterministic part)
@@ -384,6 +389,15 @@ fn gen_cases(ctx: &Ctx) -> Vec<Case> {
 fn build_stream(c: &Case) -> (Stream, Option<(usize, usize)>) {
     if c.class.starts_with("det:") {
         det_stream(&c.class)
+    } else if c.class.starts_with("bnd:") {
+        bnd::build(&c.class, &|s: &Stream, layout| {
+            let mut cc = c.clone();
+            cc.layout = layout;
+            match write_cram(&cc, s, &s.header(), &s.record_bufs()) {
+                WriteOutcome::Ok(b) => Some(b),
+                _ => None,
+            }
+        })
     } else {
         let mut rng = Rng::new(c.gseed, 0x5EED, 0);
         (gencram::gen_stream(&mut rng, &c.opts), c.layout)
@@ -941,14 +955,157 @@ fn sidecar(c: &Case, s: &Stream) -> Json {
     }
     json!({
         "records": s.reads.len(),
-        "refs": s.refs.iter().map(|r| json!({"name": r.name, "seq": String::from_utf8_lossy(&r.seq)})).collect::<Vec<_>>(),
+        "refs": s.refs.iter().map(sidecar_ref).collect::<Vec<_>>(),
         "containers": containers,
         "stream_class": if zero_span_class(s) { json!("stream-has-placed-unmapped-record-without-bases") } else { Json::Null },
         "case": case_json(c),
     })
 }
 
+/// A reference for the walker: verbatim, or (long, mostly-N references) as fill + patches.
+fn sidecar_ref(r: &gencram::RefSeq) -> Json {
+    if r.seq.len() <= 200_000 {
+        return json!({"name": r.name, "seq": String::from_utf8_lossy(&r.seq)});
+    }
+    let mut patches = Vec::new();
+    let mut i = 0usize;
+    while i < r.seq.len() {
+        if r.seq[i] == b'N' {
+            i += 1;
+            continue;
+        }
+        let j = r.seq[i..].iter().position(|b| *b == b'N').map(|k| i + k).unwrap_or(r.seq.len());
+        patches.push(json!([i, String::from_utf8_lossy(&r.seq[i..j])]));
+        i = j;
+    }
+    json!({"name": r.name, "length": r.seq.len(), "fill": "N", "patches": patches})
+}
+
+/// The stream as a witness, unless it is too large to be useful in a JSON file.
+fn witness(s: &Stream) -> Json {
+    let size: usize = s.reads.iter().map(|r| r.bases.len() + r.tags.len() * 8 + 60).sum::<usize>() + s.refs.iter().map(|r| r.seq.len()).sum::<usize>();
+    if s.reads.len() <= 80 && size < 60_000 { json!({"stream": s.to_json()}) } else { Json::Null }
+}
+
+/// `bnd:many-records:<records per slice>:<total>`: more than 2^21 records, written and read back
+/// streaming (record i is minimal, every 1000th is a named one-base read), so that the record
+/// counters of the later containers cross the LTF8 width at 2^21.
+fn run_many_records(ctx: &Ctx, idx: u64, c: &Case) -> CaseOut {
+    let mut o = CaseOut::new();
+    let parts: Vec<&str> = c.class.split(':').collect();
+    let rps: usize = parts[2].parse().unwrap();
+    let total: usize = parts[3].parse().unwrap();
+    let s = Stream { refs: det_ref(), read_groups: vec![], reads: vec![], declared_lengths: None };
+    let header = s.header();
+    let minimal = gencram::minimal_read().to_record_buf();
+    let named = |i: usize| -> ReadDesc {
+        let mut r = gencram::minimal_read();
+        r.name = Some(format!("n{i}").into_bytes());
+        r.bases = vec![b"ACGT"[i % 4]];
+        r.quals = vec![(i % 50) as u8];
+        r
+    };
+    o.count(&format!("encoder_map[{}]", c.emap), 1);
+    let repo = s.repository();
+    let w = guard::catch(|| -> std::io::Result<Vec<u8>> {
+        let mut b = cram::io::writer::Builder::default().set_reference_sequence_repository(repo).encode_alignment_start_positions_as_deltas(c.deltas).verif_set_layout(rps, 1);
+        if c.emap != "default" {
+            b = b.set_block_content_encoder_map(emap::build(&c.emap));
+        }
+        let mut w = b.build_from_writer(Vec::new());
+        w.write_header(&header)?;
+        for i in 0..total {
+            if i % 1000 == 999 {
+                w.write_alignment_record(&header, &named(i).to_record_buf())?;
+            } else {
+                w.write_alignment_record(&header, &minimal)?;
+            }
+        }
+        w.try_finish(&header)?;
+        Ok(w.into_inner())
+    });
+    let bytes = match w {
+        Ok(Ok(b)) => b,
+        Ok(Err(e)) => {
+            o.count(&format!("writer_rejected[{}]", classify_error(&e.to_string())), 1);
+            o.count("files_rejected_by_writer", 1);
+            return o;
+        }
+        Err(p) => {
+            o.count(&format!("writer_panics[{}]", p.sig), 1);
+            o.count("files_writer_panicked", 1);
+            return o;
+        }
+    };
+    o.count("files_written", 1);
+    o.count(&format!("files_written_with_encoder_map[{}]", c.emap), 1);
+    o.count("records_written", total as u64);
+    o.max("max_records_in_a_file", total as u64);
+    for k in bnd::coverage(&bytes) {
+        o.count(&k, 1);
+    }
+    // sidecar (arithmetic) + dump for the walker
+    let mut containers = Vec::new();
+    let mut at = 0usize;
+    while at < total {
+        let n = rps.min(total - at);
+        let bases = (at..at + n).filter(|i| i % 1000 == 999).count();
+        containers.push(json!({"records": n, "counter": at, "bases": bases, "slices": [{"records": n, "counter": at, "ctx": {"kind": "unmapped"}}]}));
+        at += n;
+    }
+    let dump = ctx.work.join("dump");
+    let _ = std::fs::create_dir_all(&dump);
+    std::fs::write(dump.join(format!("{idx}.cram")), &bytes).expect("dump cram");
+    let side = json!({"records": total, "refs": s.refs.iter().map(sidecar_ref).collect::<Vec<_>>(), "containers": containers, "stream_class": Json::Null, "case": case_json(c)});
+    std::fs::write(dump.join(format!("{idx}.json")), serde_json::to_vec(&side).unwrap()).expect("dump sidecar");
+    o.count("files_dumped_for_walker", 1);
+    // streaming read back
+    let repo = s.repository();
+    let r = guard::catch(|| -> Result<usize, (String, String)> {
+        let mut reader = cram::io::reader::Builder::default().set_reference_sequence_repository(repo).build_from_reader(&bytes[..]);
+        let h = reader.read_header().map_err(|e| ("unreadable:header".to_string(), e.to_string()))?;
+        let mut n = 0usize;
+        for r in reader.records(&h) {
+            let r = r.map_err(|e| ("unreadable:records".to_string(), format!("after {n} records: {e}")))?;
+            // (the regenerated name of a nameless record is not judged)
+            let (want_name, want_bases) = if n % 1000 == 999 { (Some(format!("n{n}").into_bytes()), 1) } else { (None, 0) };
+            let bad = if u16::from(r.flags()) != 4 {
+                Some("flags")
+            } else if want_name.is_some() && r.name().map(|x| x.to_vec()) != want_name {
+                Some("name")
+            } else if r.sequence().len() != want_bases || r.quality_scores().len() != want_bases {
+                Some("bases")
+            } else if !r.data().is_empty() || r.alignment_start().is_some() || r.reference_sequence_id().is_some() {
+                Some("other-fields")
+            } else {
+                None
+            };
+            if let Some(f) = bad {
+                return Err((format!("many-records:{f}"), format!("record #{n} of {total} reads back as {:?} flags {:#x} with {} bases", r.name(), u16::from(r.flags()), r.sequence().len())));
+            }
+            n += 1;
+        }
+        Ok(n)
+    });
+    match r {
+        Err(p) => o.violation(format!("roundtrip:reader-panic:{}", p.sig), format!("reading {total} records back panicked: {}", p.message)),
+        Ok(Err((sig, why))) => o.violation(format!("roundtrip:{sig}:{}", if sig.starts_with("unreadable") { classify_error(&why) } else { String::new() }), format!("file of {total} records ({} bytes): {why}", bytes.len())),
+        Ok(Ok(n)) => {
+            o.count("records_compared", n as u64);
+            if n != total {
+                o.violation("roundtrip:record-count", format!("wrote {total} records, read back {n}"));
+            }
+        }
+    }
+    o.evaluations = 1;
+    o.fp = fnv1a(c.class.as_bytes()) ^ fnv1a(c.emap.as_bytes());
+    o
+}
+
 fn run_case(ctx: &Ctx, idx: u64, c: &Case) -> CaseOut {
+    if c.class.starts_with("bnd:many-records:") {
+        return run_many_records(ctx, idx, c);
+    }
     let mut o = CaseOut::new();
     let (s, layout) = build_stream(c);
     let mut c = c.clone();
@@ -990,6 +1147,12 @@ fn run_case(ctx: &Ctx, idx: u64, c: &Case) -> CaseOut {
     o.count("files_written", 1);
     o.count(&format!("files_written_with_encoder_map[{}]", c.emap), 1);
     o.count("records_written", s.reads.len() as u64);
+    if c.class.starts_with("bnd:") {
+        o.count("boundary_files_written", 1);
+        for k in bnd::coverage(&bytes) {
+            o.count(&k, 1);
+        }
+    }
     o.max("max_records_in_a_file", s.reads.len() as u64);
     if bytes.len() > 6 {
         o.count(&format!("version[{}.{}]", bytes[4], bytes[5]), 1);
@@ -1084,7 +1247,7 @@ fn run_case(ctx: &Ctx, idx: u64, c: &Case) -> CaseOut {
         viol.0 = diagnose_codec(c, &s, &header, &records, viol.0, &mut o);
     }
     for (sig, desc) in viol.0 {
-        o.violation_with(sig, desc, json!({"stream": if s.reads.len() <= 80 { s.to_json() } else { Json::Null }}));
+        o.violation_with(sig, desc, witness(&s));
     }
     o.evaluations = 1;
     o.fp = fnv1a(format!("{}|{}|{}|{layout_mask}|{feat_mask}|{pair_mask}|{}", c.emap, c.preserve_names, c.deltas, c.opts.sorted).as_bytes());
@@ -1124,7 +1287,14 @@ fn main() {
         rep.assumptions.push(a.into());
     }
     let cases = gen_cases(&ctx);
-    let f = |i: u64| -> CaseOut { run_case(&ctx, i, &cases[i as usize]) };
+    let f = |i: u64| -> CaseOut {
+        let t0 = std::time::Instant::now();
+        let out = run_case(&ctx, i, &cases[i as usize]);
+        if std::env::var_os("C07_DEBUG_TIMES").is_some() && t0.elapsed().as_secs_f64() > 0.5 {
+            eprintln!("SLOW {:.1}s case #{i} {} {}", t0.elapsed().as_secs_f64(), cases[i as usize].class, cases[i as usize].emap);
+        }
+        out
+    };
     run_cases(&ctx, &mut rep, cases.len() as u64, 120.0, &f, &|i| case_json(&cases[i as usize]));
     if ctx.replay.is_none() && ctx.param("tiny").is_none() && ctx.param("cases").is_none() {
         let counters = rep.counters.clone();
@@ -1137,6 +1307,9 @@ fn main() {
         for k in ["adjacent[rich->minimal:inside-slice]", "adjacent[minimal->rich:inside-slice]", "adjacent[rich->minimal:across-slices]", "adjacent[minimal->rich:across-slices]",
                   "adjacent[rich->minimal:across-containers]", "adjacent[minimal->rich:across-containers]"] {
             rep.floor(k, g(k), if k.contains("across-slices") { 8 } else { 20 });
+        }
+        for k in bnd::required() {
+            rep.floor(&k, g(&k), 1);
         }
         rep.floor("records_supplementary_segment_of_a_pair", g("records_supplementary_segment_of_a_pair"), 50);
         rep.floor("records_without_qualities", g("records_without_qualities"), 100);
